@@ -3,6 +3,8 @@
 # evidence; anything found here is re-run in /verif against /repo itself before it is recorded.
 cd "$(dirname "$0")/.."
 export VERIF_REPO="${VP_RUN_REPO:-/repo}"
+# multi-engine checks (C03, C06, C19, C20) take their per-engine cap from here
+export VERIF_MAX_WALL="${THOROUGH_WALL:-900}"
 for p in C07 C08 C09 C11 C10 C15 C16 C12 C14 C13 C05 C06 C19 C18 C03 C17 C20; do
   echo "=== $p $(date +%T)"
   nice -n 10 ./check $p --tier thorough --no-evidence --no-miri --max-wall ${THOROUGH_WALL:-900} 2>&1 | grep -v "^  | " | tail -12
